@@ -309,6 +309,13 @@ class ProgGen:
         opts = []
         cv = self.const_vars(sc)
         k = self.int(0, 9)
+        if self.chance(self.o.get("stride_cond_pct", 8)):
+            # layout dispatch on the stride of an argument (window args get drawn strides)
+            sb = [b for b in sc.bufs.values() if b.kind == "arg" and b.dims]
+            if sb:
+                b = self.pick(sb)
+                d = self.int(0, len(b.dims) - 1)
+                return f"stride({b.name}, {d}) == {self.pick([1, 1, 2, 4, 8])}"
         if cv and k <= 4:
             v = self.pick(cv)
             c = self.int(v.lo - 1, v.hi + 1)
@@ -494,6 +501,10 @@ class ProgGen:
         cond = self.cond(sc)
         body = self.stmts(inner, self.int(1, 2))
         orelse = self.stmts(Scope(sc), self.int(1, 2)) if self.chance(35) else []
+        if cond.startswith("stride("):
+            # the front end cannot negate an equation between strides ("TODO: add != support"):
+            # an else-branch under a stride test is outside the accepted source language
+            orelse = []
         return ["if", cond, body, orelse]
 
     def alloc(self, sc):
@@ -793,11 +804,13 @@ class ProgGen:
                 mx = max(mn, self.pick([5, 6, 8]))
                 preds.append(f"{s} <= {mx}")
                 sc.vars[s] = Var(s, sc.sizes[s][0], mx)
-        if self.chance(30):
+        if self.chance(self.o.get("index_arg_pct", 30)):
             lo, hi = self.int(-3, 0), self.int(0, 4)
-            args.append({"name": "p", "kind": "index", "range": (lo, hi)})
-            preds.append(f"p >= {lo} and p <= {hi}" if lo >= 0 else f"{lo} <= p and p <= {hi}")
-            sc.vars["p"] = Var("p", lo, hi)
+            # (sometimes named like a loop iterator, so that inner loops shadow the argument)
+            pn = self.pick(["i", "k", "j"]) if self.chance(self.o.get("shadow_pct", 50)) else "p"
+            args.append({"name": pn, "kind": "index", "range": (lo, hi)})
+            preds.append(f"{pn} >= {lo} and {pn} <= {hi}" if lo >= 0 else f"{lo} <= {pn} and {pn} <= {hi}")
+            sc.vars[pn] = Var(pn, lo, hi)
         if self.chance(20):
             args.append({"name": "flag", "kind": "bool"})
             sc.bools.append("flag")
@@ -805,6 +818,9 @@ class ProgGen:
         for bi in range(nbuf):
             nm = ARG_POOL[bi]
             rank = self.pick([1, 1, 2, 2, 0] if bi else [1, 1, 2])
+            force_w2 = bi == 0 and self.o.get("force_window2d", False)
+            if force_w2:
+                rank = 2
             if self.use_cfg and bi == nbuf - 1 and bi > 0 and self.prec == "f32" and self.chance(60):
                 rank = 0  # a scalar to write into / read from config fields
             dims = []
@@ -815,6 +831,8 @@ class ProgGen:
                 else:
                     dims.append((None, self.pick([2, 4, 4, 6, 8, 8, 12, 16])))
             kind = "scalar" if rank == 0 else self.pick(["tensor", "tensor", "window"])
+            if force_w2:
+                kind = "window"
             mem = "DRAM"
             args.append({"name": nm, "kind": kind, "prec": self.prec, "dims": [dim_str(d) for d in dims], "mem": mem})
             sc.bufs[nm] = Buf(nm, dims, self.prec, True, "arg", init=True, is_win=kind == "window")
